@@ -62,11 +62,17 @@ Proof.
       * left. split; [reflexivity|]. exists d. split; assumption.
       * right. rewrite ae_ranged_delivered. right. left. reflexivity.
     + right. exact Hd.
-  - constructor.
-    + exists seen. split; [exact Hs|]. right.
-      destruct (if nonempty (hd [] rngs) then get_range (hd [] rngs) else None) as [r|].
-      * destruct (str_eqb (ae_delivered recomp (ae_value ae) ce ct cc) ce && negb (nonempty ce));
-          [rewrite ae_ranged_delivered; right; left; reflexivity | apply ae_delivered_allowed].
-      * apply ae_delivered_allowed.
-    + apply IH. constructor; [apply ae_delivered_allowed | exact Hs].
+  - assert (Hs' : seen_ok ce ((ae, ae_delivered recomp (ae_value ae) ce ct cc) :: seen))
+      by (constructor; [apply ae_delivered_allowed | exact Hs]).
+    constructor; [|apply IH; exact Hs'].
+    exists ((ae, ae_delivered recomp (ae_value ae) ce ct cc) :: seen). split; [exact Hs'|].
+    destruct (if nonempty (hd [] rngs) then get_range (hd [] rngs) else None) as [r|].
+    + destruct (str_eqb (ae_delivered recomp (ae_value ae) ce ct cc) ce).
+      * destruct (nonempty ce).
+        -- left. split; [reflexivity|]. exists (ae_delivered recomp (ae_value ae) ce ct cc). split.
+           ++ cbn [find fst]. rewrite str_eqb_refl. reflexivity.
+           ++ apply ae_delivered_allowed.
+        -- right. rewrite ae_ranged_delivered. right. left. reflexivity.
+      * right. apply ae_delivered_allowed.
+    + right. apply ae_delivered_allowed.
 Qed.
